@@ -63,6 +63,7 @@ def _eval_requirement(body, ap, req):
     in_fn = req.get('in_fn')
     const_any = req.get('const')
     best = None
+    hits = set()
     for g in ap['gates']:
         if not gate_is_comparison(g):
             continue
@@ -104,9 +105,14 @@ def _eval_requirement(body, ap, req):
             if extra:
                 continue
         if not missing:
-            return True, g.describe()
+            hits.add((g.fn, g.block, g.line, g.what))
+            if len(hits) >= int(req.get('min_gates', 1)):
+                return True, g.describe()
+            continue
         if best is None or len(missing) < len(best[1]):
             best = (g.describe(), missing)
+    if hits:
+        return False, ('%d of %d required comparisons found' % (len(hits), int(req.get('min_gates', 1))), req.get('cover'))
     return False, best
 
 
